@@ -13,6 +13,9 @@ if [ "${SKIP_REPO_TESTS:-0}" != "1" ]; then
   echo "repo-suite: $res"
 fi
 cd /verif
+# evidence of runs against a mutated tree must never land in /verif/evidence
+export VERIF_EVIDENCE_DIR=/verif/engine/target/seed-evidence
+mkdir -p "$VERIF_EVIDENCE_DIR"
 for c in $checks; do
   out=$(./run $c ${TIER:-quick} 2>&1); code=$?
   nv=$(echo "$out" | grep -c '^VIOLATION')
